@@ -420,7 +420,7 @@ class PDataTap:
 def run_ttp(case):
     bad = Viol()
     cfg = dict(case['cfg'])
-    tag = '%s pbm=%s TTP %r' % (_describe(cfg), case['pbm'], case['temps'])
+    tag = '%s pbm=%s TTP %r%s' % (_describe(cfg), case['pbm'], case['temps'], ' (pool protocol)' if case.get('pool') else '')
     if case['pbm'] == 'default':
         # kawin's own default grid: reset() (called by the calculator) rebuilds the population balance models with the default
         # parameters, so only with these is "an independent run" of the same configuration unambiguous
@@ -451,7 +451,14 @@ def run_ttp(case):
     tap = PDataTap(m)
     try:
         ttp = TTPCalculator(m, objs)
-        ttp.calculateTTP(float(Tlow), float(Thigh), 3, maxTime)
+        if case.get('pool'):
+            # "a pool, must have a map function": an in-process object with a map method (the documented protocol)
+            class _SerialPool:
+                def map(self, f, xs):
+                    return [f(v) for v in xs]
+            ttp.calculateTTP(float(Tlow), float(Thigh), 3, maxTime, pool=_SerialPool())
+        else:
+            ttp.calculateTTP(float(Tlow), float(Thigh), 3, maxTime)
     except precip.StepLimit:
         return {'viol': [], 'states': 0, 'outcome': 'steplimit', 'nontrivial': False, 'steplimit': True}
     except Exception as e:
@@ -559,6 +566,8 @@ def run(ctx):
             for pbm in ['default', 'configured']:
                 for temps in ([[680.0, 720.0]] if quick else [[680.0, 720.0], [700.0, 750.0]]):
                     tcases.append({'cfg': dict(BASE, system=system, nphases=nph), 'pbm': pbm, 'temps': temps})
+                    if nph == 1 and pbm == 'default':
+                        tcases.append({'cfg': dict(BASE, system=system, nphases=nph), 'pbm': pbm, 'temps': temps, 'pool': True})
     res = ctx.product_run('ttp', 'checks.c19:run_ttp', tcases, chunksize=1)
     if any(r.get('steplimit') for r in res):
         ctx.cap('ttp: step limit %d hit' % MAX_STEPS_TTP)
